@@ -8,6 +8,8 @@
 //!   O0 / O1   open the writer without / with diff tracking
 //!   U..  update_rrset / D.. remove_rrset on three owner names (one of them new, one holding two records; one update
 //!        changes only the TTL of an RRset, one changes records and TTL)
+//!   RA  remove_all at the apex followed by writing the SOA back (the start of an AXFR-style replacement); the zone also
+//!       holds a delegation and a CNAME, which live in the nodes' "special" slot
 //!   C   commit(true) (the SOA serial is bumped so that a diff can be built; the writer stays and can be opened again), X  drop the writer without commit
 //! is run on a fresh three-name zone and compared after *every* step with a map model: each held reader walks and
 //! queries exactly the content that was committed when it was taken; a new reader sees exactly the committed
@@ -19,8 +21,8 @@ use bytes::Bytes;
 use domain::base::iana::Class;
 use domain::base::name::Label;
 use domain::base::{Name, Rtype, Serial, Ttl};
-use domain::rdata::{Soa, ZoneRecordData, A};
-use domain::zonetree::{AnswerContent, ReadableZone, Rrset, SharedRrset, WritableZone, WritableZoneNode, Zone, ZoneBuilder};
+use domain::rdata::{Cname, Ns, Soa, ZoneRecordData, A};
+use domain::zonetree::{AnswerContent, ReadableZone, Rrset, SharedRr, SharedRrset, WritableZone, WritableZoneNode, Zone, ZoneBuilder};
 use std::collections::{BTreeMap, BTreeSet};
 use std::future::Future;
 use std::pin::Pin;
@@ -53,6 +55,10 @@ type Content = BTreeMap<&'static str, (u32, Vec<u8>)>; // owner label -> TTL and
 type Snap = BTreeSet<String>;
 
 const NAMES: [&str; 3] = ["x", "y", "g"];
+/// pseudo owner under which the model keeps "the delegation and the alias are there"
+const SPECIALS: &str = "*specials";
+/// what a walk reports for the delegation and the alias (taken from a walk of the freshly built zone)
+static SPECIAL_LINES: std::sync::OnceLock<Vec<String>> = std::sync::OnceLock::new();
 
 fn a_rrset(ttl: u32, last: &[u8]) -> SharedRrset {
     let mut rrset = Rrset::new(Rtype::A, Ttl::from_secs(ttl));
@@ -78,6 +84,7 @@ fn initial() -> Content {
     let mut c = Content::new();
     c.insert("x", (300, vec![1, 2]));
     c.insert("y", (300, vec![7]));
+    c.insert(SPECIALS, (0, vec![]));
     c
 }
 fn mk_zone() -> Zone {
@@ -85,13 +92,25 @@ fn mk_zone() -> Zone {
     let mut b = ZoneBuilder::new(apex.clone(), Class::IN);
     b.insert_rrset(&apex, soa_rrset()).unwrap();
     for (l, (ttl, v)) in initial() {
+        if l == SPECIALS { continue; }
         b.insert_rrset(&name(l), a_rrset(ttl, &v)).unwrap();
     }
+    // a delegation and an alias: nodes whose content is a "special" (zone cut, CNAME) rather than an RRset
+    let mut ns = Rrset::new(Rtype::NS, Ttl::from_secs(300));
+    ns.push_data(ZoneRecordData::Ns(Ns::new(name("ns.sub"))));
+    b.insert_zone_cut(&name("sub"), SharedRrset::new(ns), None, vec![]).unwrap();
+    b.insert_cname(&name("alias"), SharedRr::new(Ttl::from_secs(300), ZoneRecordData::Cname(Cname::new(name("x"))))).unwrap();
     b.build()
 }
 fn expected_snap(c: &Content) -> Snap {
     let mut s = Snap::new();
     for (l, (ttl, v)) in c {
+        if *l == SPECIALS {
+            for line in SPECIAL_LINES.get().map(|v| &v[..]).unwrap_or(&[]) {
+                s.insert(line.clone());
+            }
+            continue;
+        }
         for o in v {
             s.insert(format!("{l}.example.com {ttl} A 192.0.2.{o}"));
         }
@@ -163,8 +182,8 @@ fn check_reader(what: &str, reader: &dyn ReadableZone, want: &Content) -> Result
 }
 
 #[derive(Clone, Copy, Debug, PartialEq, Eq)]
-enum Op { R, W, P, A, O0, O1, Ux2, Ux13, Ux12t, Dx, Ug3, Dg, Uy8, Dy, C, X }
-const OPS: [Op; 16] = [Op::R, Op::W, Op::P, Op::A, Op::O0, Op::O1, Op::Ux2, Op::Ux13, Op::Ux12t, Op::Dx, Op::Ug3, Op::Dg, Op::Uy8, Op::Dy, Op::C, Op::X];
+enum Op { R, W, P, A, O0, O1, Ux2, Ux13, Ux12t, Dx, Ug3, Dg, Uy8, Dy, RA, C, X }
+const OPS: [Op; 17] = [Op::R, Op::W, Op::P, Op::A, Op::O0, Op::O1, Op::Ux2, Op::Ux13, Op::Ux12t, Op::Dx, Op::Ug3, Op::Dg, Op::Uy8, Op::Dy, Op::RA, Op::C, Op::X];
 
 struct World {
     zone: Zone,
@@ -189,7 +208,7 @@ impl World {
             Op::P => self.writer.is_some() && self.pending.is_none(),
             Op::A => self.writer.is_none() && self.pending.is_some(),
             Op::O0 | Op::O1 => self.writer.is_some() && self.node.is_none(),
-            Op::Ux2 | Op::Ux13 | Op::Ux12t | Op::Dx | Op::Ug3 | Op::Dg | Op::Uy8 | Op::Dy => self.node.is_some(),
+            Op::Ux2 | Op::Ux13 | Op::Ux12t | Op::Dx | Op::Ug3 | Op::Dg | Op::Uy8 | Op::Dy | Op::RA => self.node.is_some(),
             Op::C => self.writer.is_some(),
             Op::X => self.writer.is_some(),
         }
@@ -253,6 +272,16 @@ impl World {
             Op::Dg => self.edit("g", None)?,
             Op::Uy8 => self.edit("y", Some((600, &[8])))?,
             Op::Dy => self.edit("y", None)?,
+            Op::RA => {
+                // the start of an AXFR-style replacement: everything below and at the apex goes (delegation and alias
+                // included), the SOA is written back at once
+                let node = self.node.as_ref().unwrap();
+                now(node.remove_all())?.map_err(|e| e.to_string())?;
+                now(node.update_rrset(soa_rrset()))?.map_err(|e| e.to_string())?;
+                self.staged.as_mut().unwrap().clear();
+                // remove_all does not report to the diff (open finding D52): the diff of such a write is not judged
+                self.opens.1 = false;
+            }
             Op::C => {
                 self.node = None;
                 let diff = now(self.writer.as_mut().unwrap().commit(true))?.map_err(|e| e.to_string())?;
@@ -317,6 +346,17 @@ fn enabled_after(seq: &[Op]) -> Vec<Op> {
 
 fn main() {
     std::panic::set_hook(Box::new(|_| {}));
+    // calibration: what a walk says about the delegation and the alias of the freshly built zone
+    {
+        let z = mk_zone();
+        let all = walk(z.read().as_ref()).expect("walk of the initial zone");
+        let lines: Vec<String> = all.into_iter().filter(|l| !l.contains(" A ")).collect();
+        if lines.len() != 2 {
+            println!("FAIL calibration: the walk of the initial zone reports {lines:?} for the delegation and the alias");
+            std::process::exit(1);
+        }
+        SPECIAL_LINES.set(lines).unwrap();
+    }
     let mut count = 0u64;
     let mut with_commit = 0u64;
     let mut failures: Vec<String> = vec![];
@@ -332,7 +372,7 @@ fn main() {
                 // interesting sequences contain a writer; skip sequences of readers only beyond length 2
                 if s.iter().all(|o| *o == Op::R) && s.len() > 1 { continue; }
                 // at most three edits per sequence keeps the space small without losing the two-edits-per-RRset cases
-                if s.iter().filter(|o| matches!(o, Op::Ux2 | Op::Ux13 | Op::Ux12t | Op::Dx | Op::Ug3 | Op::Dg | Op::Uy8 | Op::Dy)).count() > 3 { continue; }
+                if s.iter().filter(|o| matches!(o, Op::Ux2 | Op::Ux13 | Op::Ux12t | Op::Dx | Op::Ug3 | Op::Dg | Op::Uy8 | Op::Dy | Op::RA)).count() > 3 { continue; }
                 count += 1;
                 let r = std::panic::catch_unwind(|| run(&s));
                 match r {
